@@ -48,6 +48,10 @@ def deep_time(cls, prog, out, ex):
 def similar_idx(cls, prog, out, ex):
     return cls in ('unified-malformed', 'json-does-not-reconstruct', 'unified-does-not-reconstruct')
 
+@rule("KF-Z-ESCAPED-SPACE", "`\\z` followed by an escaped space (`\"\\z\\ \"`): the backslash before the space is removed as an unnecessary escape, so the space is now skipped by `\\z` and the string loses a character. `\\ ` is only accepted by Luau / full_moon, not by PUC Lua")
+def z_space(cls, prog, out, ex):
+    return cls == 'literal-value' and '\\z\\ ' in prog
+
 @rule("KF-UNARY-COMMENT", "a comment on its own line between a unary operator and its operand is glued to the operator (`- \\n--c\\na` -> `---c`): the minus becomes part of the comment")
 def unary_comment(cls, prog, out, ex):
     return re.search(r'(-|not|#|~) \n--', prog) is not None and out is not None and re.search(r'---c\d+x', out) is not None
